@@ -93,3 +93,10 @@ CASES += [
         (_DSV, "        axis.data = points\n        axis.length = len(points)\n        axis.start = points[0]\n        if len(points) > 1:\n            axis.step = points[1] - points[0]\n",
          "        axis.data = points\n", 1)]},
 ]
+
+CASES += [
+    {"name": "spectrum import passes keywords its parent does not take (the repaired defect)", "kind": "mutant", "rule": "C18-M", "edits": [
+        ("quantarhei/spectroscopy/fluorescence.py", "        super().load_data(filename, with_axis=self.axis)", "        super().load_data(filename, ext=None, axis='frequency', replace=False)", 1)]},
+    {"name": "absorption spectrum export with a misspelt keyword", "kind": "mutant", "rule": "C18-M", "edits": [
+        ("quantarhei/spectroscopy/absbase.py", "        super().save_data(filename, with_axis=self.axis)", "        super().save_data(filename, withaxis=self.axis)", 1)]},
+]
